@@ -414,7 +414,14 @@ def later_rebinding(rep):
     after = np.asarray(dm.common.evaluate_new_data(df).design_matrix, dtype=float)
     if not np.array_equal(before, after):
         bad("replacing an entry of the caller's extra_namespace changed the evaluations of an existing design", f"{before.tolist()} -> {after.tolist()}")
-    rep.extra["rebinding_scenarios"] = 2
+    # an array of the caller that a call hands through unchanged, modified in place afterwards
+    w = np.array([1.0, 2.0, 3.0, 4.0])
+    dm = design_matrices("I(w) ~ x + {w}", df, extra_namespace={"w": w})
+    r0, c0 = np.array(dm.response.design_matrix, dtype=float), np.array(dm.common.design_matrix, dtype=float)
+    w *= 2
+    if not (np.array_equal(r0, np.asarray(dm.response.design_matrix, dtype=float)) and np.array_equal(c0, np.asarray(dm.common.design_matrix, dtype=float))):
+        bad("an in-place change of the caller's array changed the matrices of an existing design", f"response {r0.tolist()} -> {np.asarray(dm.response.design_matrix).tolist()}")
+    rep.extra["rebinding_scenarios"] = 3
 
 
 def run(tier, seed):
